@@ -25,7 +25,7 @@ RULE = ("cases: a graph on which all twelve functions are called (S ranging over
         ' Also: relabelled embeddings, named shapes, array presentations, graphs up to 14 nodes, minute and cancelling weights.')
 ASSUMPTIONS = ["inputs outside the quantifier (weighted two-cycles, non-zero diagonal, cyclic directed part) are counted out_of_domain"]
 EXHAUSTIVE = {"quick": True, "thorough": True}
-SOFT_LIMIT = {"quick": 240, "thorough": 1700}
+SOFT_LIMIT = {"quick": 1200, "thorough": 5400}      # generous wall-clock watchdogs (a loaded machine must not cut a workload short); normal run times are in the evidence
 _FUNCS = ("only_directed", "only_undirected", "skeleton", "undirected_edges", "directed_edges", "edge_weights", "vstructures",
           "moral_graph", "induced_subgraph", "is_clique", "is_complete", "degrees")
 REQUIRED_FUNCS = ["sempler/utils.py:" + f for f in _FUNCS]
